@@ -94,11 +94,19 @@ class AList:
     is_list = True
     pyclass = "list"
 
-    def __init__(self, n, elem, keep=None, span=None):
+    def __init__(self, n, elem, keep=None, span=None, nonempty=None):
         self.n = n
         self.elem = elem
         self.keep = keep
         self.span = span
+        self.nonempty = nonempty
+
+    def truthy(self):
+        if self.keep is None:
+            return self.n > 0
+        if self.nonempty is None:
+            raise Unsupported("truthiness of a filtered symbolic list")
+        return self.nonempty
 
 
 class Signal:
@@ -221,15 +229,33 @@ class Exec:
         if z3.is_false(c):
             yield st, False
             return
+        # when only one outcome is feasible the ORIGINAL state object carries on (callers that hold a
+        # reference to it - lazily evaluated comprehensions - must not be left with a dead state)
+        t_st = st.fork()
+        t_st.assume(c)
+        f_st = st.fork()
+        f_st.assume(z3.Not(c))
+        t_ok = self.ctx.feasible(t_st)
+        f_ok = self.ctx.feasible(f_st)
+        if t_ok and not f_ok:
+            st.assume(c)
+            st.trail.append(f"{tag}:T")
+            yield st, True
+            return
+        if f_ok and not t_ok:
+            st.assume(z3.Not(c))
+            st.trail.append(f"{tag}:F")
+            yield st, False
+            return
+        if not t_ok and not f_ok:
+            return
         st2 = st.fork()
         st.assume(c)
         st.trail.append(f"{tag}:T")
         st2.assume(z3.Not(c))
         st2.trail.append(f"{tag}:F")
-        if self.ctx.feasible(st):
-            yield st, True
-        if self.ctx.feasible(st2):
-            yield st2, False
+        yield st, True
+        yield st2, False
 
     def truthy(self, st, v):
         return truthy_term(v, st.heap)
@@ -824,12 +850,13 @@ class Exec:
     def getslice(self, obj, lo, hi, step, st, node):
         if step is not None and step != 1:
             raise Unsupported("slice step")
-        def unopt(b):
+        # an Optional bound: None means open ended (legal python) - split the path
+        for which_b, b in (("lo", lo), ("hi", hi)):
             if isinstance(b, vals.SOpt):
-                # slice bound None is legal python; an Optional bound is split by the caller
-                raise Unsupported("optional slice bound")
-            return b
-        lo, hi = unopt(lo), unopt(hi)
+                for st1, is_none in self.branch(st, b.none, f"slice{getattr(node, 'lineno', 0)}.{which_b}"):
+                    nb = None if is_none else b.v
+                    yield from self.getslice(obj, nb if which_b == "lo" else lo, nb if which_b == "hi" else hi, step, st1, node)
+                return
         for b in (lo, hi):
             if isinstance(b, (SFloat, SNum, float, SV)):
                 self.need(st, False, "TypeError", node)
